@@ -223,13 +223,23 @@ Proof.
   split; [vm_compute; reflexivity|]. split; vm_compute; reflexivity.
 Qed.
 
-(** The side condition of the int case is needed: 10 over 12 months is truncated to 0. *)
+(** The side condition of the int case is needed: 10 over 12 months is truncated to 0, so the
+    year sums to 0 - conservation without the side condition is refuted for int variables
+    (open known finding int-divide-truncates-share). *)
 Example int_share_is_truncated :
   let v := ex_month VInt RDivide in
   let r := sim_set_input v 1 [] ex_2019 [10 # 1] in
   holds r (ex_m 1) [0 # 1] = true /\ holds r (ex_m 12) [0 # 1] = true
   /\ ~ (cast VInt (10 # 12) == 10 # 12)%Q.
 Proof. split; [vm_compute; reflexivity|]. split; [vm_compute; reflexivity|]. vm_compute. discriminate. Qed.
+
+(* the same witness under the name used for refuted pre-conditions *)
+Example divide_conserves_refuted_int :
+  let v := ex_month VInt RDivide in
+  let r := sim_set_input v 1 [] ex_2019 [10 # 1] in
+  holds r (ex_m 1) [0 # 1] = true /\ holds r (ex_m 12) [0 # 1] = true
+  /\ ~ (cast VInt (10 # 12) == 10 # 12)%Q.
+Proof. exact int_share_is_truncated. Qed.
 
 (** March = 5 is known; dispatching 10 over 2019 gives 10 to every other month - also to the
     months after March (the defect repaired by the fix: commit) - and leaves March alone. *)
